@@ -256,15 +256,52 @@ func runC05(r *Report) {
 			"SessionManager.HandleDNSResolveRequest", "SessionManager.HandleDNSQueryResponse", "SessionManager.HandleDNSQueryRequest",
 			"SessionManager.HandleTrafficReport", "SessionManager.handleDisconnectCommand"}
 		n := 0
-		for _, ci := range Calls(hc, false, special...) {
-			ok := false
-			for _, ft := range Facts(ci.Block()) {
+		isCmdPacket := func(x ssa.Value) bool {
+			t, f, _, ok2 := FieldOf(x)
+			return ok2 && t == "TransferPacket" && f == "CommandPacket"
+		}
+		nonNilAt := func(b *ssa.BasicBlock, site *ssa.Call) bool {
+			for _, ft := range Facts(b) {
 				x, isnil, isN := ft.FactNil()
-				if isN && !isnil {
-					if t, f, _, ok2 := FieldOf(x); ok2 && t == "TransferPacket" && f == "CommandPacket" {
-						ok = true
+				if !isN || isnil {
+					continue
+				}
+				if isCmdPacket(x) {
+					return true
+				}
+				// inside a dispatch helper: the tested value is the parameter that receives the command packet
+				if p, isP := stripValue(x).(*ssa.Parameter); isP && site != nil {
+					for i, q := range site.Common().StaticCallee().Params {
+						if q == p && i < len(site.Call.Args) && isCmdPacket(site.Call.Args[i]) {
+							return true
+						}
 					}
 				}
+			}
+			return false
+		}
+		type spSite struct {
+			ci   ssa.CallInstruction
+			site *ssa.Call // call of the dispatch helper in handleCommandPacket (nil: direct)
+		}
+		var sps []spSite
+		for _, ci := range Calls(hc, false, special...) {
+			sps = append(sps, spSite{ci, nil})
+		}
+		Instrs(hc, func(in ssa.Instruction) {
+			if c, ok := in.(*ssa.Call); ok && !CalleeOf(c).Is(special...) {
+				if h := c.Common().StaticCallee(); h != nil && h.Pkg == hc.Pkg && len(h.Blocks) > 0 {
+					for _, ci := range Calls(h, false, special...) {
+						sps = append(sps, spSite{ci, c})
+					}
+				}
+			}
+		})
+		for _, sp := range sps {
+			ci := sp.ci
+			ok := nonNilAt(ci.Block(), sp.site)
+			if !ok && sp.site != nil {
+				ok = nonNilAt(sp.site.Block(), nil)
 			}
 			n++
 			r.Ob("R-C05-4", CallPos(ci), ok, "special-case command handler "+CalleeOf(ci).Name+" must run only under CommandPacket != nil", "handleCommandPacket", "cmdpacket-nonnil:"+CalleeOf(ci).Name)
